@@ -463,6 +463,16 @@ def alpha_key(text: str) -> str:
             return node
     tree = Size().visit(tree)
 
+    class Get(ast.NodeTransformer):
+        """x.get('key')  ->  x['key']  (TensorDict read without a default)"""
+        def visit_Call(self, node):
+            self.generic_visit(node)
+            if isinstance(node.func, ast.Attribute) and node.func.attr == "get" and len(node.args) == 1 and not node.keywords \
+                    and isinstance(node.args[0], ast.Constant) and isinstance(node.args[0].value, str):
+                return ast.Subscript(value=node.func.value, slice=node.args[0], ctx=ast.Load())
+            return node
+    tree = Get().visit(tree)
+
     class Axis(ast.NodeTransformer):
         """x.m(dim=k) -> x.m(k), torch.f(x, dim=k) -> torch.f(x, k) for axis-taking calls; commutative operands ordered"""
         M = {"sum", "mean", "amax", "amin", "argmax", "argmin", "cumsum", "softmax", "log_softmax", "squeeze", "unsqueeze", "all", "any", "prod", "std", "var", "max", "min"}
